@@ -28,9 +28,24 @@ pub fn mm_add_epi32_def(a: __m128i, b: __m128i) -> __m128i {
     let z = [x[0].wrapping_add(y[0]), x[1].wrapping_add(y[1]), x[2].wrapping_add(y[2]), x[3].wrapping_add(y[3])];
     unsafe { core::mem::transmute(z) }
 }
+/// `pshufb` (llvm.x86.ssse3.pshuf.b.128) is not modelled by Kani 0.68: replaced by its definition (Intel SDM: byte i of the
+/// result is 0 if bit 7 of mask byte i is set, else byte (mask[i] & 15) of a)
+#[allow(dead_code)]
+pub fn mm_shuffle_epi8_def(a: __m128i, m: __m128i) -> __m128i {
+    let x: [u8; 16] = unsafe { core::mem::transmute(a) };
+    let k: [u8; 16] = unsafe { core::mem::transmute(m) };
+    let mut r = [0u8; 16];
+    let mut i = 0;
+    while i < 16 {
+        r[i] = if k[i] & 0x80 != 0 { 0 } else { x[(k[i] & 15) as usize] };
+        i += 1;
+    }
+    unsafe { core::mem::transmute(r) }
+}
 // @harness props=C16 kind=full tier=thorough timeout=1500
 #[kani::proof]
 #[kani::stub(core::arch::x86_64::_mm_add_epi32, mm_add_epi32_def)]
+#[kani::stub(core::arch::x86_64::_mm_shuffle_epi8, mm_shuffle_epi8_def)]
 #[kani::unwind(65)]
 fn sha256_sse41_schedule_matches_scalar() {
     let msg: [u8; 256] = kani::any();
